@@ -10,21 +10,25 @@ import (
 
 // one call of the property function, as the property sees it
 type invocation struct {
-	words  []uint64 // not yet consumed buffer at entry (buffer-backed T only)
-	isBuf  bool
-	draws  []string // %#v of every value received from Draw, in order
-	events []string
-	ended  string // "ret" if the body returned normally, "" otherwise
+	words     []uint64 // not yet consumed buffer at entry (buffer-backed T only)
+	isBuf     bool
+	draws     []string // %#v of every value received from Draw, in order
+	vals      []string // canonical text of the values drawn outside rejected attempts (Custom retries, rejected actions)
+	nsignals  int
+	events    []string
+	ended     string // "ret" if the body returned normally, "" otherwise
+	signalled bool   // a failure statement was executed
 }
 
 type interp struct {
-	prog   []*SX
-	b      *builder
-	gens   map[*SX]*rapid.Generator[any]
-	invs   []*invocation
-	cur    *invocation
-	hook   func(in *interp, t *rapid.T) // called at the start of every invocation
-	ctxIDs []context.Context
+	prog        []*SX
+	b           *builder
+	gens        map[*SX]*rapid.Generator[any]
+	invs        []*invocation
+	cur         *invocation
+	hook        func(in *interp, t *rapid.T) // called at the start of every invocation
+	firstCtx    map[*rapid.T]context.Context
+	customDepth int // > 0 while a Custom function runs (its inner *T does not log draws)
 }
 
 func newInterp(prog *SX, strAll bool) *interp {
@@ -42,6 +46,20 @@ func (in *interp) genFor(g *SX) *rapid.Generator[any] {
 	return r
 }
 
+// a failure statement is being executed: remember it ("F:" events are for the monitors only)
+func (in *interp) signal(s *SX) {
+	if in.cur != nil {
+		in.cur.signalled = true
+		in.cur.nsignals++
+		switch s.Head() {
+		case "error", "fail", "goerror":
+			in.cur.events = append(in.cur.events, "F:nonfatal")
+		default:
+			in.cur.events = append(in.cur.events, "F:"+s.String())
+		}
+	}
+}
+
 func (in *interp) ev(s string) {
 	if in.cur != nil {
 		in.cur.events = append(in.cur.events, s)
@@ -54,7 +72,7 @@ func (in *interp) prop(t *rapid.T) {
 	inv.words, inv.isBuf = rapid.VerifTWords(t)
 	in.invs = append(in.invs, inv)
 	in.cur = inv
-	in.ctxIDs = nil
+	in.firstCtx = map[*rapid.T]context.Context{}
 	if in.hook != nil {
 		in.hook(in, t)
 	}
@@ -68,19 +86,15 @@ func (in *interp) cond(env map[string]any, c *SX) bool {
 	return applyPred(p, env[c.List[1].Atom])
 }
 
+// "ctx:<live>:<is it the first context this *T handed out in this invocation>"
 func (in *interp) ctxEvent(t *rapid.T) {
 	ctx := t.Context()
-	id := -1
-	for i, c := range in.ctxIDs {
-		if c == ctx {
-			id = i
-		}
+	first, ok := in.firstCtx[t]
+	if !ok {
+		in.firstCtx[t] = ctx
+		first = ctx
 	}
-	if id < 0 {
-		id = len(in.ctxIDs)
-		in.ctxIDs = append(in.ctxIDs, ctx)
-	}
-	in.ev(fmt.Sprintf("ctx:%d:%v", id, ctx.Err() == nil))
+	in.ev(fmt.Sprintf("ctx:%v:%v", ctx.Err() == nil, first == ctx))
 }
 
 func (in *interp) stmts(t *rapid.T, env map[string]any, list []*SX) any {
@@ -89,27 +103,34 @@ func (in *interp) stmts(t *rapid.T, env map[string]any, list []*SX) any {
 		case "draw":
 			v := in.genFor(s.List[2]).Draw(t, s.List[1].Atom)
 			env[s.List[1].Atom] = v
-			if in.cur != nil {
+			if in.cur != nil && in.customDepth == 0 {
 				in.cur.draws = append(in.cur.draws, fmt.Sprintf("%#v", v))
+				in.cur.vals = append(in.cur.vals, showVal(v))
 			}
 		case "if":
 			if in.cond(env, s.List[1]) {
 				in.stmts(t, env, s.List[2:])
 			}
 		case "fatal":
+			in.signal(s)
 			n := atoi(s.List[1])
 			callSite(n, func() { t.Fatalf("f%d", n) })
 		case "failnow":
+			in.signal(s)
 			n := atoi(s.List[1])
 			callSite(n, func() { t.FailNow() })
 		case "error":
+			in.signal(s)
 			t.Errorf("e%d", atoi(s.List[1]))
 		case "fail":
+			in.signal(s)
 			t.Fail()
 		case "panic":
+			in.signal(s)
 			n := atoi(s.List[1])
 			callSite(n, func() { panic(fmt.Sprintf("p%d", n)) })
 		case "rtpanic": // a runtime error: nil map write
+			in.signal(s)
 			n := atoi(s.List[1])
 			callSite(n, func() {
 				var m map[int]int
@@ -125,6 +146,7 @@ func (in *interp) stmts(t *rapid.T, env map[string]any, list []*SX) any {
 		case "ctx":
 			in.ctxEvent(t)
 		case "goerror": // Errorf from another goroutine, joined before continuing
+			in.signal(s)
 			done := make(chan struct{})
 			n := atoi(s.List[1])
 			go func() {
@@ -143,7 +165,18 @@ func (in *interp) stmts(t *rapid.T, env map[string]any, list []*SX) any {
 				case "act":
 					name := fmt.Sprintf("a%02d", k)
 					k++
-					actions[name] = func(t *rapid.T) { in.stmts(t, env, body) }
+					actions[name] = func(t *rapid.T) {
+						// an attempt that ends in invalid data (skip, rejection) is not part of the test case
+						inv, done := in.cur, false
+						nv, sig := len(inv.vals), inv.nsignals
+						defer func() {
+							if !done && inv.nsignals == sig {
+								inv.vals = inv.vals[:nv]
+							}
+						}()
+						in.stmts(t, env, body)
+						done = true
+					}
 				}
 			}
 			t.Repeat(actions)
